@@ -536,8 +536,13 @@ def job_eulerq(lay, t):
                       (tag + 'yaw.sin==-R20', REq(T.sin(Y), A['sY'])), (tag + 'yaw.cos>=0', RGoal('ge', T.cos(Y), ZERO))]
                 if not is_num(Y): foc[tag + 'yaw.sin==-R20'] = foc[tag + 'yaw.cos>=0'] = [Y, T.sin(Y), T.cos(Y)]
             return g
-        chk(S, Un, 'pyr_' + t, spec, lambda i: [unit(i[0])], setup=setup, staged_if=lambda l: True, focus=foc,
-            bounds='all unit q; guard |R22|,|R21| <= epsilon<T>() (pitch) / |R00|,|R10| <= epsilon<T>() (roll) decided on the exact values; atan2/asin as shared function applications')
+        bnd = 'all unit q; guard |R22|,|R21| <= epsilon<T>() (pitch) / |R00|,|R10| <= epsilon<T>() (roll) decided on the exact values; atan2/asin as shared function applications'
+        res = chk(S, Un, 'pyr_' + t, spec, lambda i: [unit(i[0])], setup=setup, staged_if=lambda l: True, focus=foc, side=False, bounds=bnd)
+        if res is not None:          # the executor's own obligations (asin domain), with the hypotheses restricted to those about the asin application
+            pre = [unit(res.ins[0])]; T = Trig(res.ex); av = [v for key, (v, a_) in res.ex.trig.items() if key[0] == 'asin']
+            for k, (kind, cond, d) in enumerate(res.obligations):
+                staged(S, '%s.pyr_%s.%s[%s]#%d' % (Un.name, t, kind, d[:60], k), z3.Not(cond), pre, pre + res.axioms, lambda m: ('no-replay', {}), S.cap(60, 150),
+                       dict(kind=kind, functions=['w_pyr_' + t], bounds=bnd), focus=av + [T.sin(v) for v in av] + [T.cos(v) for v in av])
     return run
 
 # ------------------------------------------------------------------------------------------------ extractEulerAngleABC: generic lemma chain
